@@ -18,7 +18,9 @@ def run(res, f, tier):
     entries = entry_points(f)
     if len(entries) != 3:
         raise Inconclusive("evaluation entry points not found: %s" % entries)
-    reach = evalsum.reachable_local(f, entries)
+    # the monomorphic graph also brings in crate-local code that upstream generic code calls back during evaluation
+    # (hand-written Debug / Display / PartialEq / Clone / Drop impls used by format!, ==, clone, drop)
+    reach = evalsum.reachable_mono(f, entries)
     ev = evalsum.find_evaluator(f)
     if not ev or ev[1] not in reach:
         raise Inconclusive("recursive evaluator not reachable from the entry points")
